@@ -51,6 +51,8 @@ pub enum Stage {
     Framed(usize, bool),
     /// Harness pass-through answering `Pending` n times before each move.
     Lazy(usize, bool),
+    /// Batch size, calls to wait, `Again` instead of `Pending`.
+    Hold(usize, usize, bool),
     /// Access-code correlator (bits -> bits).
     Correlate(Vec<u8>, usize),
     /// Tee -> (data, trigger = data * k) -> BurstTagger -> StreamToPdu ->
@@ -122,6 +124,9 @@ fn gen_stage(src: &mut Src, ty: Ty, cap_bytes: usize, allow_diamond: bool) -> (S
             if src.chance(1, 12) {
                 return (Stage::Lazy(src.range(1, 3), src.coin()), ty);
             }
+            if src.chance(1, 14) {
+                return (Stage::Hold(*src.pick(&[7usize, 100, 100_000]), src.range(0, 3), src.coin()), ty);
+            }
             match src.below(n + allow_diamond as usize) {
                 0 => (Stage::XorConst(if ty == Ty::Bits { src.below(2) as u8 } else { src.below(256) as u8 }), ty),
                 1 => (Stage::DelayS(src.below(cap(1) / 4)), ty),
@@ -157,6 +162,7 @@ fn gen_stage(src: &mut Src, ty: Ty, cap_bytes: usize, allow_diamond: bool) -> (S
         }
         Ty::F32 | Ty::C32 if src.chance(1, 9) => (Stage::Framed(*src.pick(&[4usize, 7, 16, 64, 500]), src.chance(1, 3)), ty),
         Ty::F32 | Ty::C32 if src.chance(1, 12) => (Stage::Lazy(src.range(1, 3), src.coin()), ty),
+        Ty::F32 | Ty::C32 if src.chance(1, 14) => (Stage::Hold(*src.pick(&[7usize, 100, 100_000]), src.range(0, 3), src.coin()), ty),
         Ty::F32 => match src.below(9 + 5 * allow_diamond as usize) {
             0 => (Stage::AddConstF((src.below(41) as f32 - 20.0) * 0.25), ty),
             1 => (Stage::MulConstF((src.below(41) as f32 - 20.0) * 0.125), ty),
@@ -541,6 +547,18 @@ fn build_stage_x(s: &Stage, input: St, blocks: &mut Vec<Box<dyn Block + Send>>, 
         }
         (Stage::Lazy(k, ag), St::C32(r)) => {
             let (b, o) = Lazy::new(r, *k, *ag);
+            push!(b, o, C32)
+        }
+        (Stage::Hold(k, arm, ag), St::U8(r)) => {
+            let (b, o) = Hold::new(r, *k, *arm, *ag);
+            push!(b, o, U8)
+        }
+        (Stage::Hold(k, arm, ag), St::F32(r)) => {
+            let (b, o) = Hold::new(r, *k, *arm, *ag);
+            push!(b, o, F32)
+        }
+        (Stage::Hold(k, arm, ag), St::C32(r)) => {
+            let (b, o) = Hold::new(r, *k, *arm, *ag);
             push!(b, o, C32)
         }
         (Stage::Framed(k, f), St::U8(r)) => {
